@@ -19,7 +19,8 @@ func (c11) ID() string       { return "C11" }
 func (c11) NewCase() any     { return &CheckCase{} }
 func (c11) Cases(c *Ctx) int { return c.Pick(2000, 40000) }
 
-var c11Modes = []string{"pass", "errorf", "skip", "errorf+skip", "cleanup-errorf", "cleanup-errorf+skip", "fatalf", "cleanup", "ctx", "go-errorf", "go-errorf+skip", "log"}
+var c11Modes = []string{"pass", "errorf", "skip", "errorf+skip", "cleanup-errorf", "cleanup-errorf+skip", "fatalf", "cleanup", "ctx", "go-errorf", "go-errorf+skip", "log",
+	"cleanup-errorf+cleanup-skip", "cleanup+cleanup-skip", "cleanup-skip"}
 
 func c11Block(mode string, site int) []*Stmt {
 	errorf := &Stmt{Op: "sig", Kind: []string{"Errorf", "Error", "Fail"}[site%3], Site: site}
@@ -47,6 +48,13 @@ func c11Block(mode string, site int) []*Stmt {
 		return []*Stmt{{Op: "go", Body: []*Stmt{errorf}}, skip}
 	case "log":
 		return []*Stmt{{Op: "log", N: 5}}
+	case "cleanup-errorf+cleanup-skip":
+		// two cleanups: the one registered last (it runs first) declares the test case invalid, the other one fails it
+		return []*Stmt{{Op: "cleanup", Body: []*Stmt{errorf}}, {Op: "cleanup", Body: []*Stmt{skip}}}
+	case "cleanup+cleanup-skip":
+		return []*Stmt{{Op: "cleanup", Body: []*Stmt{{Op: "ctx"}}}, {Op: "cleanup", Body: []*Stmt{{Op: "log", N: 2}}}, {Op: "cleanup", Body: []*Stmt{skip}}}
+	case "cleanup-skip":
+		return []*Stmt{{Op: "cleanup", Body: []*Stmt{skip}}}
 	}
 	return nil
 }
